@@ -589,6 +589,7 @@ func runC17(ctx *core.Ctx, idx int) *core.Result {
 		c17LinesThenImportsProbe(res)
 		c17SamePathImportProbe(res)
 		c17HeaderThenImportsProbe(res)
+		c17RespeltNeighbourProbe(res)
 	}
 	paths := [][]engineRun{applyAPI(pt, srcs)}
 	pnames := []string{"api"}
@@ -876,6 +877,41 @@ func c17HeaderThenImportsProbe(res *core.Result) {
 						res.Violate("C17/header-comments-changed/import-removed-after-an-earlier-change", fmt.Sprintf("%q occurs %d times in the output", c, strings.Count(runs[0].Out, c)), replayFiles(pt, src, runs[0].Out))
 						return
 					}
+				}
+			}
+		}
+	}
+}
+
+// c17RespeltNeighbourProbe: an untouched declaration holds a number literal that gofmt spells otherwise (0XFF, 1E3, 0B1) and has
+// a comment trailing it; an earlier change rewrites code elsewhere, a later change replaces the declaration that follows by
+// one of another kind. The untouched declaration keeps its comments (its tree is respelt together with the file, which must not
+// cost it its comments).
+func c17RespeltNeighbourProbe(res *core.Result) {
+	lits := []string{"0XFF", "1E3", "0B101", "0O17", "0X1P-2", "0xFF"}
+	nexts := [][2]string{
+		{"func second() {\n\tfmt.Println(\"bye\")\n}", "-func second() {\n-  ...\n-}\n+var second = 1\n"},
+		{"var flag = true", "-var flag = true\n+const flag = true\n"},
+	}
+	for _, lit := range lits {
+		for _, nx := range nexts {
+			for _, trail := range []string{" // after first\n\n", "\n// after first\n\n"} {
+				src := "// Header.\n\n// Package a.\npackage a\n\nimport \"fmt\"\n\n// first is untouched.\nfunc first() float64 {\n\t// inside first\n\treturn " + lit + " // trailing in first\n}" + trail +
+					nx[0] + "\n\n// third is untouched.\nfunc third() {\n\t// inside third\n\tfmt.Println(\"hello\")\n} // after third\n\nfunc fourth() { fmt.Println(\"rewritten\") }\n"
+				pt := "@@\n@@\n-fmt.Println(\"rewritten\")\n+fmt.Print(\"rewritten\")\n\n@@\n@@\n" + nx[1]
+				if !gen.Parses(src) {
+					continue
+				}
+				runs := applyAPI(pt, []string{src})
+				res.Evals++
+				res.Ob("respelt-neighbour-probes", 1)
+				if runs[0].Pan != "" || runs[0].Err != "" || !strings.Contains(runs[0].Out, "fmt.Print(\"rewritten\")") || strings.Contains(runs[0].Out, nx[0]) {
+					res.Violate("C17/respelt-neighbour-probe-failed", runs[0].Pan+runs[0].Err, replayFiles(pt, src, runs[0].Out))
+					return
+				}
+				if class, detail, _, _ := judgeComments(src, runs[0].Out); class != "" {
+					res.Violate("C17/"+class+"/next-to-a-declaration-that-is-respelt", detail, replayFiles(pt, src, runs[0].Out))
+					return
 				}
 			}
 		}
